@@ -429,12 +429,20 @@ def evaluate_cases(prop, cases):
             impl_obs.append(prop.impl(c))
         except Exception as e:  # noqa: BLE001
             impl_obs.append({"harness_exception": f"{type(e).__name__}: {e}", "tb": traceback.format_exc()[-800:]})
-    exprs = [prop.coq_expr(c) for c in cases]
+    exprs, enc_err = [], {}
+    for i, c in enumerate(cases):
+        try:
+            exprs.append(prop.coq_expr(c))
+        except Exception as e:  # noqa: BLE001  (e.g. the implementation handed back NaN where the model needs a number)
+            enc_err[i] = f"{type(e).__name__}: {e}"
+            exprs.append("SL nil")
     sxs = run_model(prop.ID, prop.coq_header(), exprs, chunk=getattr(prop, "CHUNK", 200))
     recs = []
-    for c, io, sx in zip(cases, impl_obs, sxs):
+    for i, (c, io, sx) in enumerate(zip(cases, impl_obs, sxs)):
         rec = {"case": c, "impl": io, "model": None, "diff": None, "oracle": None}
-        if isinstance(sx, Exception):
+        if i in enc_err:
+            rec["diff"] = f"the case (with what the implementation returned) cannot be given to the model: {enc_err[i]}"
+        elif isinstance(sx, Exception):
             rec["diff"] = f"model run failed: {sx}"
         else:
             try:
@@ -479,6 +487,23 @@ def shrink_case(prop, case, still_fails, budget=60):
 
 
 def main(prop, argv=None):
+    """Runs the check; a crash of the machinery itself is reported as a violation (the property is then
+    not shown to hold), never as a silent non-zero exit."""
+    try:
+        return _main(prop, argv)
+    except SystemExit:
+        raise
+    except BaseException as e:  # noqa: BLE001
+        tb = traceback.format_exc()
+        path = write_replay(prop.ID, {"property": prop.ID, "kind": "check-crashed", "what": f"{type(e).__name__}: {e}",
+                                      "traceback": tb[-4000:], "theorem_or_correspondence": "the check did not complete"})
+        print(tb[-1500:])
+        print(f"  what: the check crashed: {type(e).__name__}: {e}")
+        print(f"VIOLATION property={prop.ID} replay={path} no-failing-input-found")
+        return 1
+
+
+def _main(prop, argv=None):
     import argparse
 
     ap = argparse.ArgumentParser()
